@@ -60,6 +60,9 @@ func genMixedCase(p mixedParams) *rapid.Generator[Case] {
 		if p.LongBigSeg && c.Cfg.Seg >= 1024 {
 			maxSteps *= 3
 		}
+		if p.MergePct > 0 && c.Cfg.Seg <= 200 && rapid.IntRange(0, 5).Draw(t, "manysegs") == 3 {
+			maxSteps *= 3 // more than ten segments before a Merge (file ids with two digits)
+		}
 		n := rapid.IntRange(1, maxSteps).Draw(t, "nsteps")
 		for i := 0; i < n; i++ {
 			r := rapid.IntRange(0, 99).Draw(t, "stepkind")
@@ -70,6 +73,8 @@ func genMixedCase(p mixedParams) *rapid.Generator[Case] {
 				c.Steps = append(c.Steps, Step{K: "merge"})
 			case structs && p.MaxOps >= 2 && p.ReadsInTx && rapid.IntRange(0, 11).Draw(t, "noopatcommit") == 7:
 				c.Steps = append(c.Steps, genNoopAtCommit(t, buckets[0], i)...)
+			case structs && p.MergePct > 0 && rapid.IntRange(0, 15).Draw(t, "emptied") == 9:
+				c.Steps = append(c.Steps, genAfterMergeOnEmptied(t, buckets[0], c.Cfg.Seg)...)
 			case p.MultiKV > 1 && rapid.IntRange(0, 2).Draw(t, "multikv") == 1:
 				// one transaction writing key/value pairs of several buckets (bucket+key concatenations may coincide)
 				st := Step{K: "tx", Managed: rapid.Bool().Draw(t, "managed")}
@@ -132,6 +137,38 @@ func genNoopAtCommit(t *rapid.T, bucket string, serial int) []Step {
 		}
 	}
 	return []Step{{K: "tx", Ops: []Op{{K: "rpush", B: S(bucket), Key: key, Vs: vals}}}, tx}
+}
+
+// genAfterMergeOnEmptied builds a step sequence around Merge: a set or sorted-set structure is filled and emptied
+// again, enough key/value data is written for at least two segments, Merge runs (it drops every record of the
+// emptied structure), then the emptied structure is touched again (a removal that finds nothing, or a new member)
+// and the database is reopened.
+func genAfterMergeOnEmptied(t *rapid.T, bucket string, seg int64) []Step {
+	// a bucket of its own: after Merge and a reopen an emptied structure no longer exists (recorded finding
+	// c15-merge-forgets-emptied-set-keys), so later drawn calls must not land on it
+	b := S("emb")
+	var fill, empty, again Op
+	if rapid.Bool().Draw(t, "emz") {
+		fill, empty = Op{K: "zadd", B: b, Key: "em", F: 1, V: "x"}, Op{K: rapid.SampledFrom([]string{"zrem", "zpopmax", "zpopmin"}).Draw(t, "emzrem"), B: b, Key: "em"}
+		again = Op{K: rapid.SampledFrom([]string{"zrem", "zpopmin", "zadd", "zremrangebyrank"}).Draw(t, "emzagain"), B: b, Key: "em", F: 2, V: "y", I: 1, J: 1}
+	} else {
+		fill, empty = Op{K: "sadd", B: b, Key: "em", Vs: []S{"x"}}, Op{K: rapid.SampledFrom([]string{"srem", "spop"}).Draw(t, "emsrem"), B: b, Key: "em", Vs: []S{"x"}}
+		again = Op{K: rapid.SampledFrom([]string{"srem", "sadd", "spop"}).Draw(t, "emsagain"), B: b, Key: "em", Vs: []S{"x"}}
+	}
+	n := int(seg) / 2
+	if n > 100 {
+		n = 100
+	}
+	big := S(make([]byte, 0, n))
+	for i := 0; i < n-50 && i < 60; i++ {
+		big += "f"
+	}
+	steps := []Step{{K: "tx", Ops: []Op{fill}}, {K: "tx", Ops: []Op{empty}}}
+	for i := 0; i < 4; i++ {
+		steps = append(steps, Step{K: "tx", Ops: []Op{{K: "put", B: b, Key: S("fl" + string(rune('0'+i))), V: big}}})
+	}
+	steps = append(steps, Step{K: "merge"}, Step{K: "tx", Ops: []Op{again}}, Step{K: "reopen"})
+	return steps
 }
 
 // writesOf returns the (structure,bucket) pairs a step may modify.
